@@ -113,7 +113,7 @@ class Gen:
         base_w = {
             "compile_str": 5.0, "compile_callable": 1.5, "compile_defs": 2.5, "compile_param": 1.2, "param_defs": 1.0,
             "to_logicfun": 0.8, "bind": 3.0, "oraclize": 2.0, "algo": 3.0, "secret_oracle": 0.4,
-            "export": 2.0, "decompile": 1.0, "truth_table": 1.5, "header": 0.3, "repr": 0.3, "again": 1.5, "forget": 0.8, "canary": 1.2, "variant": 0.8, "recompile": 0.6, "decode": 0.5, "custom": 0.35, "param_churn": 0.5, "bind_siblings": 0.6, "compose": 1.2, "wrap_then_recompile": 1.5,
+            "export": 2.0, "decompile": 1.0, "truth_table": 1.5, "header": 0.3, "repr": 0.3, "again": 1.5, "forget": 0.8, "canary": 1.2, "variant": 0.8, "recompile": 0.6, "decode": 0.5, "custom": 0.35, "param_churn": 0.5, "bind_siblings": 0.6, "compose": 1.2, "wrap_then_recompile": 1.5, "refused_recompile": 1.2,
         }
         # swarm: every run disables / boosts a random subset of op kinds
         self.w = {k: v * r.choice([0, 0.5, 1, 1, 2, 3]) for k, v in sorted(base_w.items())}
@@ -133,6 +133,7 @@ class Gen:
         self.recompiles = {}
         self.side = {}
         self.interesting = []
+        self.force = None
         self.recent = []  # (name, src, meta) of the string/callable compiles so far: bases of near-twins
 
     # -- helpers
@@ -177,6 +178,13 @@ class Gen:
 
     def pick(self, cands, s):
         r = self.r
+        if self.force is not None:
+            # one-shot: the builder that runs next works on this object if it can (use of an object right after
+            # an operation on it was refused)
+            f, self.force = self.force, None
+            for e in cands:
+                if e["id"] == f:
+                    return e
         ws = []
         for e in cands:
             w = 3.0 if e["used"] else 1.0
@@ -192,7 +200,9 @@ class Gen:
         uses = list(uses)
         for u in list(uses):
             uses.extend(self.recompiles.get(u, []))
-        if kind == "recompile":
+        if kind == "recompile" and "compiler" not in a:
+            # (a recompile the library refuses -- unknown compiler -- is not a dependency of later users of the
+            # object: a refused call must not matter to them, which is what the late re-execution then checks)
             self.recompiles.setdefault(a["target"], []).append(oid)
         self.ops.append({"id": oid, "kind": kind, "a": a, "uses": sorted(set(uses)), "s": s})
         self.side[oid] = (rk, meta, name)
@@ -261,6 +271,8 @@ class Gen:
                 except Exception:
                     pass
         a = {"src": src}
+        if str(meta.get("id", "")).startswith("mut:"):
+            a["ntwin"] = meta["id"][4:]
         a.update(self.copts())
         if "compiler" in a and not rejected:
             rejected, clean_src = True, src
@@ -447,7 +459,9 @@ class Gen:
     def b_algo(self, s):
         r = self.r
         cls = r.choice(["Grover", "Grover", "GroverEl", "DeutschJozsa", "Simon", "BernsteinVazirani"])
+        loose = False
         if self.arm == "reject" and r.random() < 0.25:
+            loose = True
             c = self.cands(lambda e: e["rk"] == "qf" and e["meta"].get("compiled", True) and e["meta"].get("in_bits", 99) <= 8)
         elif cls in ("Grover", "DeutschJozsa", "BernsteinVazirani"):
             c = self.cands(self.one_arg(True))
@@ -462,6 +476,8 @@ class Gen:
         if a["cls"] == "Grover" and e["meta"].get("in_bits", 4) > 5:
             a["n_iterations"] = 1
         self.add("algo", a, [e["id"]], s, "algo", {"in_bits": e["meta"].get("in_bits", 4)}, None)
+        if loose and (e["meta"].get("nargs") != 1 or not e["meta"].get("ret_bool")):
+            self.use_again(e, s)  # most probably refused (precondition of the algorithm): use the function again
         return True
 
     def b_secret_oracle(self, s):
@@ -487,7 +503,17 @@ class Gen:
         if self.arm == "reject" and r.random() < 0.15:
             fw = "nosuchframework"
         self.add("export", {"target": e["id"], "fw": fw, "mode": r.choice(["circuit", "gate"])}, [e["id"]], s, "none")
+        if fw == "nosuchframework":
+            self.use_again(e, s)
         return True
+
+    def use_again(self, e, s, p=0.6):
+        """right after an operation on `e` was refused: the next operation works on `e` again"""
+        if self.r.random() < p and self.force is None:
+            self.force = e["id"]
+            nxt = self.r.choice(["export", "export", "decompile", "truth_table", "compose", "algo", "oraclize"] if e["rk"] == "qf" else ["export", "export", "decompile", "compose"])
+            getattr(self, "b_" + nxt)(s)
+            self.force = None
 
     def b_compose(self, s):
         """the compiled circuit of a function / algorithm used as an OPERAND of the composition operators, and the
@@ -692,7 +718,7 @@ class Gen:
         for o in self.ops:
             if o["id"] == oid and "uncompute" in o["a"]:
                 cur = bool(o["a"]["uncompute"])
-            if o["kind"] == "recompile" and o["a"]["target"] == oid:
+            if o["kind"] == "recompile" and o["a"]["target"] == oid and "compiler" not in o["a"]:
                 cur = bool(o["a"]["uncompute"])
         return cur
 
@@ -702,9 +728,33 @@ class Gen:
         if not c:
             return False
         e = self.pick(c, s)
+        if self.arm == "reject" and self.r.random() < 0.3 and e["meta"].get("compiled", True):
+            return self.refused_recompile(e, s)
         self.add("recompile", {"target": e["id"], "uncompute": self.r.random() < 0.5}, [e["id"]], s, "none")
         e["meta"] = dict(e["meta"], compiled=True)
         return True
+
+    def refused_recompile(self, e, s):
+        # F1: a compile() the library refuses before it touches the object (a compiler that does not exist);
+        # the user catches the exception and goes on with the circuit the object already has
+        self.add("recompile", {"target": e["id"], "uncompute": self.r.random() < 0.5, "compiler": self.r.choice(["nosuchcompiler", "Internal", "tweedledum2"])}, [e["id"]], s, "none")
+        self.interesting.append(len(self.ops) - 1)
+        if self.r.random() < 0.8:
+            self.force = e["id"]
+            nxt = self.r.choice(["oraclize", "oraclize", "algo", "algo", "export", "decompile", "truth_table", "compose"])
+            getattr(self, "b_" + nxt)(s)
+            self.force = None
+        return True
+
+    def b_refused_recompile(self, s):
+        """scenario (reject arm only): compile() with a compiler that does not exist on a compiled function, then use it"""
+        if self.arm != "reject":
+            return False
+        c = self.cands(lambda e: e["rk"] == "qf" and e["meta"].get("argsig") is not None and e["meta"].get("compiled", True))
+        if not c:
+            return False
+        one = [e for e in c if e["meta"].get("nargs") == 1 and e["meta"].get("in_bits", 99) <= 8]
+        return self.refused_recompile(self.pick(one if one and self.r.random() < 0.7 else c, s), s)
 
     def b_forget(self, s):
         """drop the host's reference to an object (and collect): frees ids for reuse"""
@@ -1195,7 +1245,10 @@ def do_op(op, objs, tmpdir):
         import fingerprint as F
 
         o = objs[a["target"]]
-        o.compile(uncompute=a["uncompute"])
+        if "compiler" in a:
+            o.compile(compiler=a["compiler"], uncompute=a["uncompute"])
+        else:
+            o.compile(uncompute=a["uncompute"])
         return {"kind": "recompiled", "fp": F.fp_any(o)}
     if k == "forget":
         import gc
@@ -1464,6 +1517,9 @@ def run_history(cfg, ops, faults, prefix, tmpdir, est=None):
                 probe("same_name_other_body")
             if seen and d in seen:
                 probe("same_name_same_body")
+            if op["a"].get("ntwin"):
+                probe("near_twin_" + ("accepted" if outcome == "ok" else "refused"))
+                probe("near_twin:" + op["a"]["ntwin"])
             if nm in progs.LIB_GLOBAL_NAMES:
                 probe("library_global_name_compiled")
                 names_seen.setdefault("__lib__", []).append(oid)
